@@ -49,35 +49,41 @@
       same in every reachable state (RealmTraceC12Step.run_meta_fixed).
 
     INVOCATION ([realm_invocation_identity_iff], [realm_no_identity_leak_
-    invocation]).  An INVOCATION leaves a step only in a CALL step, to a client
-    callee (INVOCATIONs for the meta session are consumed inside the step).  A
-    further chunk of a progressive call carries [progress] only.  A first
-    chunk for callee [y] under registration [rid] ↦ [rg] carries
-    caller / caller_authid / caller_authrole EXACTLY when
-    [reg_disclose rg = true], or the caller asked ([disclose_me]), the realm
-    allows disclosure and [y]'s record announces callee/caller_identification;
-    the values are the caller's own.
+    invocation], [realm_invocation_callee_asked]).  An INVOCATION leaves a step
+    only in a CALL step, to a client callee (INVOCATIONs for the meta session
+    are consumed inside the step).  A further chunk of a progressive call
+    carries [progress] only.  A first chunk for callee [y] under registration
+    [rid] ↦ [rg] carries caller / caller_authid / caller_authrole EXACTLY when
+    [y] is in [reg_disclose rg] ([reg_discloses rg y]), or the caller asked
+    ([disclose_me]), the realm allows disclosure and [y]'s record announces
+    callee/caller_identification; the values are the caller's own.
 
-    THE REGISTRATION'S FLAG ([realm_disclose_flag_origin], used in
-    [realm_no_identity_leak_invocation]).  Genuinely historical: a registration
-    with the flag set and a client callee has, earlier in the history, its
-    creating step: a REGISTER answered REGISTERED with this registration id,
-    with [disclose_caller = true], admitted because the realm allows disclosure
-    or that session's authrole was "trusted" ([disc_witness], spelled out by
-    [disc_witness_meaning]).
+    WHO IS IN [reg_disclose] ([realm_disclose_flag_origin], used in
+    [realm_no_identity_leak_invocation]).  Genuinely historical and PER
+    CALLEE: a client session [sid] in the list of registration [rid] in a
+    reached state has, earlier in the history, ITS OWN asking step — a REGISTER
+    by [sid] answered REGISTERED with this registration id, with
+    [disclose_caller = true], admitted because the realm allows disclosure or
+    [sid]'s authrole was "trusted" then — and in every state since it has been
+    in the list, a callee of [rid] and attached; no UNREGISTER of [rid] by it
+    was answered UNREGISTERED since.  ([disc_witness], spelled out by
+    [disc_witness_meaning].)  A session that is not attached is in no list and
+    joining changes no list: a session id that left and joins again starts
+    without the flag ([realm_rejoin_without_flag]).
 
-    FOUND FALSE OF THE MODEL (and of router/dealer.go syncRegister): the flag
-    is the CREATOR's.  A callee that joins an existing shared registration
-    (roundrobin / random / first / last) inherits it; its own
-    [disclose_caller] option is checked against the realm setting but not
-    recorded.  So in a realm that does NOT allow disclosure an anonymous
-    callee — even one whose own REGISTER with [disclose_caller = true] was
-    refused option_disallowed.disclose_me — receives the callers' identities
-    through a shared registration created by a trusted session:
-    [realm_invocation_callee_asked_refuted] (seven operations;
-    RealmTraceC12Ex.SharedEx).  Conversely a callee that joins with
-    [disclose_caller = true] a registration created without it is answered
-    REGISTERED and receives no identities. *)
+    HISTORY OF THIS FILE.  Before /repo adf4e26 the flag was one boolean per
+    registration, the CREATOR's: a callee joining a shared registration
+    inherited it (router/dealer.go syncRegister checked the joiner's
+    [disclose_caller] but did not record it), so in a realm that does not
+    allow disclosure an anonymous callee received the callers' identities
+    through a registration created by a trusted session.  That was proved here
+    as [realm_invocation_callee_asked_refuted], confirmed on the router and
+    repaired (model: [reg_disclose : list N], per callee).  The refutation is
+    replaced by the positive [realm_invocation_callee_asked]; its witness
+    history is kept as an Example: the creator is sent identities, the joiner
+    is not ([histories_c12_shared_registration]); conversely a joiner that
+    asks and is allowed is sent identities although the creator did not ask
+    ([histories_c12_joiner_asks]). *)
 From Nexus Require Import Router.Realm Router.DealerLib.
 From Nexus Require Import Router.RealmWf Router.RealmStep.
 From Nexus Require Import Router.RealmTraceLib Router.RealmTrace Router.RealmTraceC05.
@@ -139,36 +145,61 @@ Theorem realm_no_identity_leak_event_noauthz : forall cfg pre o post y sub pubid
 Proof. exact realm_no_identity_leak_event_noauthz_proof. Qed.
 Print Assumptions realm_no_identity_leak_event_noauthz.
 
-(** ** The registration's disclose flag *)
+(** ** Who is in a registration's [reg_disclose] *)
 
-(** [disc_witness cfg ops rid]: the history [ops] contains the step that
-    created registration [rid] with the flag set *)
-Theorem disc_witness_meaning : forall cfg ops rid,
-    disc_witness cfg ops rid <->
-    exists pre o post x m orc xs req opts proc,
+(** [disc_witness cfg ops rid sid]: the history [ops] contains the step at
+    which [sid] itself asked for the caller's identity on registration [rid]
+    and was allowed to, and [sid] has been in the list of [rid] ever since *)
+Theorem disc_witness_meaning : forall cfg ops rid sid,
+    disc_witness cfg ops rid sid <->
+    exists pre o post m orc xs req opts proc,
       ops = pre ++ o :: post /\
-      o = OMsg x m orc /\ find_session (r_clients (fst (run (init_realm cfg) pre))) x = Some xs /\
+      o = OMsg sid m orc /\ find_session (r_clients (fst (run (init_realm cfg) pre))) sid = Some xs /\
       gate (fst (run (init_realm cfg) pre)) xs m = inl (CRegister req opts proc) /\
-      In (x, RRegistered req rid) (snd (step (fst (run (init_realm cfg) pre)) o)) /\
+      In (sid, RRegistered req rid) (snd (step (fst (run (init_realm cfg) pre)) o)) /\
       opt_bool opts "disclose_caller" = true /\
-      (c_disclose cfg = true \/ attr_of (s_details xs) "authrole" = "trusted").
+      (c_disclose cfg = true \/ attr_of (s_details xs) "authrole" = "trusted") /\
+      forall mid rest, post = mid ++ rest ->
+        exists rg, nget (d_regs (r_dealer (fst (run (init_realm cfg) (pre ++ o :: mid))))) rid = Some rg /\
+                   In sid (reg_disclose rg).
 Proof. exact disc_witness_iff. Qed.
 Print Assumptions disc_witness_meaning.
 
-Theorem realm_disclose_flag_origin : forall cfg ops rid rg y,
+Theorem realm_disclose_flag_origin : forall cfg ops rid rg sid,
     Forall op_ok ops -> k0 cfg + N.of_nat (List.length ops) <= max_idN ->
     nget (d_regs (r_dealer (fst (run (init_realm cfg) ops)))) rid = Some rg ->
-    reg_disclose rg = true -> In y (reg_callees rg) -> y <> meta_id ->
-    exists pre o post x m orc xs req opts proc,
+    In sid (reg_disclose rg) -> sid <> meta_id ->
+    exists pre o post m orc xs req opts proc,
       ops = pre ++ o :: post /\
       let r1 := fst (run (init_realm cfg) pre) in
-      o = OMsg x m orc /\ find_session (r_clients r1) x = Some xs /\
+      (* the session's own REGISTER, asking, admitted *)
+      o = OMsg sid m orc /\ find_session (r_clients r1) sid = Some xs /\
       gate r1 xs m = inl (CRegister req opts proc) /\
-      In (x, RRegistered req rid) (snd (step r1 o)) /\
+      In (sid, RRegistered req rid) (snd (step r1 o)) /\
       opt_bool opts "disclose_caller" = true /\
-      (c_disclose cfg = true \/ attr_of (s_details xs) "authrole" = "trusted").
+      (c_disclose cfg = true \/ attr_of (s_details xs) "authrole" = "trusted") /\
+      (* in every state since: attached, in the list, a callee of [rid] *)
+      (forall mid rest, post = mid ++ rest ->
+         let r2 := fst (run (init_realm cfg) (pre ++ o :: mid)) in
+         client r2 sid /\
+         exists rg2, nget (d_regs (r_dealer r2)) rid = Some rg2 /\ In sid (reg_disclose rg2) /\ In sid (reg_callees rg2)) /\
+      (* no UNREGISTER of [rid] by it was answered UNREGISTERED since *)
+      (forall mid u rest m2 orc2 s2 q q', post = mid ++ u :: rest ->
+         let r2 := fst (run (init_realm cfg) (pre ++ o :: mid)) in
+         u = OMsg sid m2 orc2 -> find_session (r_clients r2) sid = Some s2 ->
+         gate r2 s2 m2 = inl (CUnregister q rid) -> ~ In (sid, RUnregistered q') (snd (step r2 u))).
 Proof. exact realm_disclose_flag_origin_proof. Qed.
 Print Assumptions realm_disclose_flag_origin.
+
+(** a session that is not attached is in no list; joining puts it in none *)
+Theorem realm_rejoin_without_flag : forall cfg ops sid l h rid,
+    Forall op_ok ops -> k0 cfg + N.of_nat (List.length ops) <= max_idN ->
+    sid <> meta_id -> ~ client (fst (run (init_realm cfg) ops)) sid ->
+    (forall rg, nget (d_regs (r_dealer (fst (run (init_realm cfg) ops)))) rid = Some rg -> ~ In sid (reg_disclose rg)) /\
+    (forall rg, nget (d_regs (r_dealer (fst (step (fst (run (init_realm cfg) ops)) (OJoin sid l h))))) rid = Some rg ->
+                ~ In sid (reg_disclose rg)).
+Proof. exact realm_rejoin_without_flag_proof. Qed.
+Print Assumptions realm_rejoin_without_flag.
 
 (** ** INVOCATION *)
 
@@ -190,7 +221,7 @@ Theorem realm_invocation_identity_iff : forall cfg pre o post y inv rid det a k,
         exists rg ys,
           nget (d_regs (r_dealer r)) rid = Some rg /\ In y (reg_callees rg) /\
           find_session (r_clients r) y = Some ys /\
-          let allowed := reg_disclose rg ||
+          let allowed := reg_discloses rg y ||
                          (opt_bool opts "disclose_me" && c_disclose cfg &&
                           sess_feature ys "callee" "caller_identification") in
           dget det "caller" = (if allowed then Some (vid x) else None) /\
@@ -216,8 +247,8 @@ Theorem realm_no_identity_leak_invocation : forall cfg pre o post y inv rid det 
       dget det "caller" = Some (vid x) /\
       dget det "caller_authid" = dget (s_details xs) "authid" /\
       dget det "caller_authrole" = dget (s_details xs) "authrole" /\
-      ((* the registration was CREATED with disclose_caller by a session allowed to ask *)
-       (reg_disclose rg = true /\ disc_witness cfg pre rid) \/
+      ((* THIS callee asked at its own REGISTER, was allowed to, and has held the flag since *)
+       (In y (reg_disclose rg) /\ disc_witness cfg pre rid y) \/
        (* or the caller asked, the realm allows it, the callee announced the feature *)
        (opt_bool opts "disclose_me" = true /\ c_disclose cfg = true /\
         sess_feature ys "callee" "caller_identification" = true)).
@@ -239,30 +270,60 @@ Theorem realm_no_identity_leak_invocation_noauthz : forall cfg pre o post y inv 
       dget det "caller" = Some (vid x) /\
       dget det "caller_authid" = dget (s_details xs) "authid" /\
       dget det "caller_authrole" = dget (s_details xs) "authrole" /\
-      ((reg_disclose rg = true /\ disc_witness cfg pre rid) \/
+      ((In y (reg_disclose rg) /\ disc_witness cfg pre rid y) \/
        (opt_bool opts "disclose_me" = true /\ c_disclose cfg = true /\
         sess_feature ys "callee" "caller_identification" = true)).
 Proof. exact realm_no_identity_leak_invocation_noauthz_proof. Qed.
 Print Assumptions realm_no_identity_leak_invocation_noauthz.
 
-(** FALSE OF THE MODEL: "in a realm that does not allow disclosure, an
-    INVOCATION with the caller's identity reaches only a callee that is
-    trusted or asked for it, unless the caller asked".  Witness: the trusted
-    session 20 creates a roundrobin registration with disclose_caller; the
-    anonymous session 21 joins it; the second call goes to 21. *)
-Theorem realm_invocation_callee_asked_refuted :
-    exists cfg pre o post y inv rid det a k ys,
-      let ops := pre ++ o :: post in
-      let r := fst (run (init_realm cfg) pre) in
-      c_authz cfg = None /\ Forall op_ok ops /\ k0 cfg + N.of_nat (List.length ops) <= max_idN /\
-      c_disclose cfg = false /\
-      In (y, RInvocation inv rid det a k) (snd (step r o)) /\ dhas det "caller" = true /\
-      find_session (r_clients r) y = Some ys /\
-      attr_of (s_details ys) "authrole" <> "trusted" /\
-      (forall q opts proc orc, In (OMsg y (CRegister q opts proc) orc) ops -> opt_bool opts "disclose_caller" = false) /\
-      (exists x q opts proc orc, o = OMsg x (CCall q opts proc a k) orc /\ opt_bool opts "disclose_me" = false).
-Proof. exact SharedEx.callee_asked_refuted_proof. Qed.
-Print Assumptions realm_invocation_callee_asked_refuted.
+(** the reading that was FALSE before the repair of syncRegister and is now
+    proved: an INVOCATION carries the caller's identity only if the caller
+    asked (and the realm allows it and this callee announced
+    caller_identification), or THIS callee asked at its own REGISTER
+    (disclose_caller = true) and was allowed to (realm setting / "trusted") *)
+Theorem realm_invocation_callee_asked : forall cfg pre o post y inv rid det a k,
+    let ops := pre ++ o :: post in
+    let r := fst (run (init_realm cfg) pre) in
+    Forall op_ok ops -> k0 cfg + N.of_nat (List.length ops) <= max_idN ->
+    In (y, RInvocation inv rid det a k) (snd (step r o)) ->
+    dhas det "caller" = true \/ dhas det "caller_authid" = true \/ dhas det "caller_authrole" = true ->
+    (exists x m orc xs q opts proc ys,
+        o = OMsg x m orc /\ find_session (r_clients r) x = Some xs /\ gate r xs m = inl (CCall q opts proc a k) /\
+        opt_bool opts "disclose_me" = true /\ c_disclose cfg = true /\
+        find_session (r_clients r) y = Some ys /\ sess_feature ys "callee" "caller_identification" = true)
+    \/
+    (exists pre1 o1 post1 m1 orc1 ys1 q1 opts1 proc1,
+        pre = pre1 ++ o1 :: post1 /\
+        let r1 := fst (run (init_realm cfg) pre1) in
+        o1 = OMsg y m1 orc1 /\ find_session (r_clients r1) y = Some ys1 /\
+        gate r1 ys1 m1 = inl (CRegister q1 opts1 proc1) /\
+        In (y, RRegistered q1 rid) (snd (step r1 o1)) /\
+        opt_bool opts1 "disclose_caller" = true /\
+        (c_disclose cfg = true \/ attr_of (s_details ys1) "authrole" = "trusted")).
+Proof. exact realm_invocation_callee_asked_proof. Qed.
+Print Assumptions realm_invocation_callee_asked.
+
+Theorem realm_invocation_callee_asked_noauthz : forall cfg pre o post y inv rid det a k,
+    let ops := pre ++ o :: post in
+    let r := fst (run (init_realm cfg) pre) in
+    c_authz cfg = None ->
+    Forall op_ok ops -> k0 cfg + N.of_nat (List.length ops) <= max_idN ->
+    In (y, RInvocation inv rid det a k) (snd (step r o)) ->
+    dhas det "caller" = true \/ dhas det "caller_authid" = true \/ dhas det "caller_authrole" = true ->
+    (exists x orc q opts proc ys,
+        o = OMsg x (CCall q opts proc a k) orc /\
+        opt_bool opts "disclose_me" = true /\ c_disclose cfg = true /\
+        find_session (r_clients r) y = Some ys /\ sess_feature ys "callee" "caller_identification" = true)
+    \/
+    (exists pre1 post1 orc1 ys1 q1 opts1 proc1,
+        pre = pre1 ++ OMsg y (CRegister q1 opts1 proc1) orc1 :: post1 /\
+        let r1 := fst (run (init_realm cfg) pre1) in
+        find_session (r_clients r1) y = Some ys1 /\
+        In (y, RRegistered q1 rid) (snd (step r1 (OMsg y (CRegister q1 opts1 proc1) orc1))) /\
+        opt_bool opts1 "disclose_caller" = true /\
+        (c_disclose cfg = true \/ attr_of (s_details ys1) "authrole" = "trusted")).
+Proof. exact realm_invocation_callee_asked_noauthz_proof. Qed.
+Print Assumptions realm_invocation_callee_asked_noauthz.
 
 (** ** Non-vacuity *)
 
@@ -315,11 +376,11 @@ Proof.
   exact (conj A (conj B (conj C (conj D (conj E (conj F (conj G H))))))).
 Qed.
 
-(** the flag: registration 25 of the history above has it, with client
-    callee 15; its creating step is the REGISTER of 15 *)
+(** the flag: 15 is in the list of registration 25 of the history above; its
+    asking step is its REGISTER *)
 Example histories_c12_flag_hypotheses_satisfiable :
     (exists rg, nget (d_regs (r_dealer (fst (run (init_realm EvEx.cfgd) InvEx12.ops)))) 25 = Some rg /\
-                reg_disclose rg = true /\ In 15 (reg_callees rg) /\ 15 <> meta_id) /\
+                In 15 (reg_disclose rg) /\ In 15 (reg_callees rg) /\ 15 <> meta_id) /\
     In (15, RRegistered 1 25)
        (snd (step (fst (run (init_realm EvEx.cfgd)
                             [OJoin 10 false EvEx.hello_pub; OJoin 14 false InvEx12.hello_callee_id;
@@ -327,14 +388,39 @@ Example histories_c12_flag_hypotheses_satisfiable :
                   (OMsg 15 (CRegister 1 [("disclose_caller", VBool true)] "q") 0))).
 Proof. exact InvEx12.flag. Qed.
 
-(** the shared registration: 21 asks and is refused, joins the registration
-    of the trusted 20, and is sent the caller's identity *)
+(** the shared registration (the history that refuted the property before
+    the repair): the creator 20 (trusted, asked) is sent the caller's
+    identity, the joiner 21 is not — whether it never asked ([ops]) or asked
+    and was refused ([ops']); the list of registration 24 is [20] *)
 Example histories_c12_shared_registration :
-    c_disclose SharedEx.cfgn = false /\
-    snd (run (init_realm SharedEx.cfgn) (SharedEx.pre' ++ [SharedEx.call2])) =
+    c_disclose SharedEx.cfgn = false /\ c_authz SharedEx.cfgn = None /\
+    Forall op_ok SharedEx.ops /\ k0 SharedEx.cfgn + N.of_nat (List.length SharedEx.ops) <= max_idN /\
+    Forall op_ok SharedEx.ops' /\ k0 SharedEx.cfgn + N.of_nat (List.length SharedEx.ops') <= max_idN /\
+    snd (run (init_realm SharedEx.cfgn) SharedEx.ops) =
+    [[]; []; [];
+     [(20, RRegistered 1 24)]; [(21, RRegistered 1 24)];
+     [(20, RInvocation 1 24 SharedEx.det [] [])];
+     [(21, RInvocation 1 24 SharedEx.plain [] [])]] /\
+    snd (run (init_realm SharedEx.cfgn) SharedEx.ops') =
     [[]; []; [];
      [(21, RError c_REGISTER 9 [] e_disclose_me [] [])];
      [(20, RRegistered 1 24)]; [(21, RRegistered 1 24)];
      [(20, RInvocation 1 24 SharedEx.det [] [])];
+     [(21, RInvocation 1 24 SharedEx.plain [] [])]] /\
+    (exists rg, nget (d_regs (r_dealer (fst (run (init_realm SharedEx.cfgn) SharedEx.ops)))) 24 = Some rg /\
+                reg_disclose rg = [20] /\ reg_callees rg = [20; 21]).
+Proof.
+  destruct SharedEx.hyps as (A & B & C & D & E & F).
+  exact (conj A (conj B (conj C (conj D (conj E (conj F (conj SharedEx.outs (conj SharedEx.outs' SharedEx.lists)))))))).
+Qed.
+
+(** conversely: the realm allows disclosure, the creator 20 did not ask, the
+    joiner 21 did: 21 is sent the caller's identity, 20 is not *)
+Example histories_c12_joiner_asks :
+    Forall op_ok ConvEx.ops /\ k0 EvEx.cfgd + N.of_nat (List.length ConvEx.ops) <= max_idN /\
+    snd (run (init_realm EvEx.cfgd) ConvEx.ops) =
+    [[]; []; [];
+     [(20, RRegistered 1 24)]; [(21, RRegistered 1 24)];
+     [(20, RInvocation 1 24 SharedEx.plain [] [])];
      [(21, RInvocation 1 24 SharedEx.det [] [])]].
-Proof. exact (conj eq_refl SharedEx.outs'). Qed.
+Proof. exact ConvEx.outs. Qed.
